@@ -412,9 +412,9 @@ def stdin_cells(tier):
 
 def parts(tier):
     return [
-        Part("matrix", check_matrix, strategy=matrix_case(), examples=(40, 800)),
+        Part("matrix", check_matrix, strategy=matrix_case(), examples=(40, 3000)),
         Part("stdin-cells", check_stdin, cases=stdin_cells, exhaustive=True),
         Part("stdin", check_stdin, strategy=matrix_case(), examples=(1, 25)),
-        Part("interleaved", check_interleaved, strategy=interleave_case(), examples=(20, 400)),
-        Part("garbage", check_garbage, strategy=garbage_case(), examples=(100, 2000)),
+        Part("interleaved", check_interleaved, strategy=interleave_case(), examples=(20, 1500)),
+        Part("garbage", check_garbage, strategy=garbage_case(), examples=(100, 10000)),
     ]
